@@ -928,10 +928,8 @@ class FlippedEncoding(LazyIndexMap):
         return dense
 
     def mask(self, mask):
-        if not isinstance(mask, Encoding):
-            mask = DenseEncoding(mask)
-        mask = mask.flip(self._axes)
-        return self._data.mask(mask).flip(self._axes)
+        # values in row-major order of the flipped array
+        return self.dense[mask if isinstance(mask, np.ndarray) else mask.dense]
 
     def copy(self):
         return FlippedEncoding(self._data.copy(), self._axes)
